@@ -55,6 +55,11 @@ def source(attrs):
 #[typeshare]
 {a}pub const G_CONST: u32 = 1;
 #[typeshare]
+{a}pub struct GTwin {{ pub from_guarded: u32 }}
+#[typeshare]
+#[cfg(target_os = "d")]
+pub struct GTwin {{ pub from_d: u32 }}
+#[typeshare]
 pub enum HostEnum {{ Keep, {ai} GVariant }}
 #[typeshare]
 pub struct HostStruct {{ pub keep: u32, {ai} pub gfield: u32 }}
@@ -79,6 +84,10 @@ def presence(res):
         "alias": any(a["id"]["original"] == "GAlias" for a in pd.get("aliases", [])),
         "const": any(c["id"]["original"] == "G_CONST" for c in pd.get("consts", [])),
     }
+    # two definitions of one name under different guards (the usual per-platform pattern): each is kept or dropped by its OWN guard
+    twins = [s_ for s_ in pd.get("structs", []) if s_["id"]["original"] == "GTwin"]
+    out["twin"] = any(f["id"]["original"] == "from_guarded" for s_ in twins for f in s_["fields"])
+    out["twin2"] = any(f["id"]["original"] == "from_d" for s_ in twins for f in s_["fields"])
     if "HostEnum" in enums:
         out["variant"] = any(v["id"]["original"] == "GVariant" for v in enums["HostEnum"]["variants"])
     if "HostStruct" in structs:
@@ -162,6 +171,12 @@ def run_cases(chk, cases, file_every=1):
                                  f"an unguarded sibling disappeared with {attrs_text(attrs).strip()} and {T}",
                                  {"attrs": attrs, "targets": T, "level": "host"}, True, False)
             for level, kept in obs.items():
+                if level == "twin2":          # the second definition carries its own guard cfg(target_os = "d")
+                    own = [{"k": "os", "v": "d"}]
+                    if keep is not None:
+                        judge(chk, own, T, "twin-second-definition", (not T) or "d" in T, kept)
+                    events.append({"attrs": own, "targets": T, "level": "twin-second-definition", "kept": kept})
+                    continue
                 if keep is not None:
                     judge(chk, attrs, T, level, keep[bit], kept)
                 events.append({"attrs": attrs, "targets": T, "level": level, "kept": kept})
